@@ -1,6 +1,6 @@
 (* C15: refutation witnesses, examples, and the small lemmas about extraction and defaults. *)
 From Gv Require Import lib.Bytes lib.Gql C15.Unicode C15.Model C15.Spec C15.Diag
-  C15.ProofsStr C15.ProofsNum C15.ProofsEnc C15.ProofsBlock C15.ProofsJson C15.ProofsFwd.
+  C15.ProofsStr C15.ProofsNum C15.ProofsEnc C15.ProofsBlock C15.ProofsJson C15.ProofsFwd C15.History.
 From Coq Require Import Lia ZifyN ZifyNat ZifyBool ZArith.
 Open Scope N_scope.
 
@@ -16,41 +16,40 @@ Definition w_quote_ws : value := VStr [32; 34; 32; 32; 97] true.
 (* three spaces, as a block string *)
 Definition w_blank : value := VStr [32; 32; 32] true.
 
+(* still refuted on the repaired code: the braced escape is copied as it is *)
 Lemma vars_valid_json_refuted_proof :
   exists l, lit_valid l /\ json_denote (value_to_json [] l) = JInvalid.
-Proof. exists w_tab. split; vm_compute; reflexivity. Qed.
-
-Lemma vars_valid_json_refuted_brace_proof :
-  exists l, lit_valid l /\ has_raw_ctl [92; 117; 123; 52; 49; 125] = false /\ json_denote (value_to_json [] l) = JInvalid.
-Proof. exists w_brace. repeat split; vm_compute; reflexivity. Qed.
+Proof. exists w_brace. split; vm_compute; reflexivity. Qed.
 
 Definition differs (l : value) : Prop :=
   lit_valid l /\ exists d, json_denote (value_to_json [] l) = JOk d /\ dval_eqb d (gql_denote [] l) = false.
 
-Lemma value_preserved_refuted_esc_triple_proof : differs w_esc_triple.
-Proof. split; [vm_compute; reflexivity|]. eexists. split; vm_compute; reflexivity. Qed.
+(* still refuted on the repaired code: a quote next to the white space the lexer trims *)
 Lemma value_preserved_refuted_quote_ws_proof : differs w_quote_ws.
 Proof. split; [vm_compute; reflexivity|]. eexists. split; vm_compute; reflexivity. Qed.
-Lemma value_preserved_refuted_blank_proof : differs w_blank.
-Proof. split; [vm_compute; reflexivity|]. eexists. split; vm_compute; reflexivity. Qed.
-
-(* what the three block string witnesses turn into, for the record *)
-Example w_esc_triple_go : block_string_value [97; 92; 34; 34; 34; 98] = [97; 92; 34; 34; 34; 98]
-                          /\ spec_block_value [97; 92; 34; 34; 34; 98] = [97; 34; 34; 34; 98].
-Proof. split; vm_compute; reflexivity. Qed.
 Example w_quote_ws_go : block_string_value [32; 34; 32; 32; 97] = [32; 32; 97]
                         /\ spec_block_value [32; 34; 32; 32; 97] = [32; 34; 32; 32; 97].
 Proof. split; vm_compute; reflexivity. Qed.
-Example w_blank_go : block_string_value [32; 32; 32] = [32; 32; 32] /\ spec_block_value [32; 32; 32] = [].
+
+(* the witnesses of the repaired defects now satisfy the hypotheses of the partial theorems *)
+Definition ex_repaired : value := VList [w_tab; w_esc_triple; w_blank; VStr [10; 10] true].
+Example ex_repaired_hyps : lit_valid ex_repaired /\ go_safe_b ex_repaired = true.
 Proof. split; vm_compute; reflexivity. Qed.
+Example ex_repaired_text :
+  (* [`a\u0009b`,`a```b`,``,``] with ` standing for the quotation mark *)
+  value_to_json [] ex_repaired =
+  [91; 34; 97; 92; 117; 48; 48; 48; 57; 98; 34; 44; 34; 97; 92; 34; 92; 34; 92; 34; 98; 34; 44; 34; 34; 44; 34; 34; 93].
+Proof. vm_compute. reflexivity. Qed.
 
 (* ---- variable default values ---- *)
 Definition v0 : name := [118; 48].
-(* query($v0: [T] = null): the specification keeps null, the implementation stores [null] *)
-Lemma default_null_refuted_proof :
-  exists b, default_extract [] v0 1 VNull = Some b
-            /\ exists d, json_denote b = JOk d /\ dval_eqb d (default_denote 1 (gql_denote [] VNull)) = false.
-Proof. eexists. split; [vm_compute; reflexivity|]. eexists. split; vm_compute; reflexivity. Qed.
+(* query($v0: [T] = null) with v0 omitted: null is stored, whatever the list depth *)
+Lemma default_null_stays_null_proof : forall vs n w,
+  var_get n vs = None -> default_extract vs n w VNull = Some lit_null.
+Proof.
+  intros vs n w H. unfold default_extract. rewrite H. cbn [value_to_json lit_null is_null_value negb].
+  rewrite Bool.andb_false_r. reflexivity.
+Qed.
 
 Lemma default_preserved_partial_proof : forall vs e n d,
   vars_framed vs e -> var_get n vs = None -> lit_valid d -> go_safe_b d = true ->
@@ -111,7 +110,7 @@ Proof. vm_compute. reflexivity. Qed.
 (* the block string of the example meets the hypotheses of c15_block_value_agrees *)
 Example ex_block_hyps :
   let raw := [10; 32; 32; 120; 10; 32; 32; 32; 32; 121; 13; 10; 32; 32] in
-  has_escaped_triple raw = false /\ rescan_exact raw = true /\ blank_only raw = false /\ go_block_lexable raw = true.
+  rescan_exact raw = true /\ go_block_lexable raw = true.
 Proof. repeat split; vm_compute; reflexivity. Qed.
 
 (* default value example: query($v0: T = {s: `d`, n: [1.0e3]}) with v0 omitted *)
